@@ -23,7 +23,7 @@ PLAN = {'quick': {'gen': 8}, 'thorough': {'gen': 16, 'tests': 1, 'docs': 1}}
 REQUIRED_BUCKETS = ['range:identical', 'range:nested', 'range:overlap', 'range:disjoint', 'grid:uniform', 'grid:nonuniform',
                     'op:add', 'op:subtract', 'op:multiply', 'op:divide', 'op:power', 'sampling:min', 'sampling:left',
                     'sampling:right', 'sampling:float', 'fill:0', 'fill:nonzero', 'unit:nm', 'unit:um', 'unit:m',
-                    'unit:angstrom', 'unit:mixed', 'scalar', 'vector', 'method:quadratic', 'method:cubic', 'blackbody', 'density', 'update-sequence', 'values:integer']
+                    'unit:angstrom', 'unit:mixed', 'scalar', 'vector', 'method:quadratic', 'method:cubic', 'blackbody', 'density', 'update-sequence', 'values:integer', 'scalar:numpy-type']
 REQUIRED_ANCHORS = ['probe:Spectrum._ufunc', 'anchor:_interp_common', 'anchor:_sampling', 'anchor:Spectrum.sample']
 REQUIRED_ORACLES = ['grid', 'value=op(interp)', 'new-object', 'commutative', 'unit-agnostic', 'operands-physically-unchanged',
                     'scalar-elementwise']
@@ -441,14 +441,20 @@ def workload(ctx, lentil):
         kind = int(rng.integers(0, 4))
         other = [float(rng.uniform(0.5, 3)), int(rng.integers(1, 4)), rng.uniform(0.5, 2, size=na),
                  list(rng.uniform(0.5, 2, size=na))][kind]
-        ctx.case({'scalar-op': opn, 'kind': kind, 'n': na, 'unit': unit}, ['scalar' if kind < 2 else 'vector', f'op:{opn}'])
+        if kind < 2 and i % 3 == 0:
+            # a scalar is a scalar whatever type carries it: the result of arr.sum(), a float32 gain, a 0-d array
+            other = [np.int64(int(rng.integers(1, 4))), np.float32(1.5), np.float64(other), np.array(float(other)), np.uint8(3),
+                     np.int32(2)][(i // 3) % 6]
+            ctx.bucket('scalar:numpy-type')
+        ctx.case({'scalar-op': opn, 'kind': kind, 'n': na, 'unit': unit, 'type': type(other).__name__},
+                 ['scalar' if kind < 2 else 'vector', f'op:{opn}'])
         try:
             if opn == 'multiply' and kind < 2 and rng.random() < 0.5:
                 other * A               # __rmul__
             else:
                 getattr(A, opn)(other)  # online oracle decides
         except Exception as e:
-            ctx.check(False, 'scalar-elementwise', f'scalar|raises={type(e).__name__}', str(e), {'op': opn, 'kind': kind})
+            ctx.check(False, 'scalar-elementwise', f'scalar|raises={type(e).__name__}', str(e), {'op': opn, 'kind': kind, 'type': type(other).__name__})
 
     # ---- Blackbody operands ------------------------------------------------------------------------------
     for i in range(max(6, n // 10)):
